@@ -331,7 +331,7 @@ def run(tier, seed, t0):
     for nm, fn in (("c07_conservation", scen_conservation), ("c07_first_description_wins", scen_descriptions), ("c07_global_labels", scen_global_labels)):
         try:
             fn(e3)
-        except sym.Unsupported as ex:
+        except _e3.ENC_ERRORS as ex:
             e3.error(nm, "MIR->SMT encoding of the Prometheus recorder's aggregation chain", ex)
     finish("C07", tier, seed, list(e3.res.obligations), t0, ASSUME + ["E3 callee models: " + ", ".join(sorted(e3.models))], sorted(e3.functions),
            explanation="MIR->SMT encoding of record / get_recent_metrics / run_upkeep histories of the Prometheus recorder against sample conservation")
